@@ -90,7 +90,8 @@ fn main() {
             if replay.is_empty() {
                 let wo: u64 = arg(&args, "wo", 0);
                 let faults: u64 = arg(&args, "faults", 0);
-                cli::generate(&mut out, seed, scripts, len, wo == 1, faults == 1);
+                let extreme: u64 = arg(&args, "extreme", 0);
+                cli::generate(&mut out, seed, scripts, len, wo == 1, faults == 1, extreme == 1);
             } else {
                 for (i, (h, ops)) in read_scripts(&replay).iter().enumerate() {
                     let p = cli::Params::from_header(h);
@@ -108,7 +109,8 @@ fn main() {
             if replay.is_empty() {
                 let wo: u64 = arg(&args, "wo", 0);
                 let faults: u64 = arg(&args, "faults", 0);
-                srv::generate(&mut out, seed, scripts, len, wo == 1, faults == 1);
+                let extreme: u64 = arg(&args, "extreme", 0);
+                srv::generate(&mut out, seed, scripts, len, wo == 1, faults == 1, extreme == 1);
             } else {
                 for (i, (h, ops)) in read_scripts(&replay).iter().enumerate() {
                     let p = srv::Params::from_header(h);
